@@ -241,6 +241,35 @@ mut("c11-silent-insert-copy", "C11", "sequence.go",
     "\tr := make([]byte, 0, len(p)+len(q))\n\tr = append(r, p[:pos]...)\n\tr = append(r, q...)\n\treturn append(r, p[pos:]...)\n",
     "\tr := make([]byte, len(p)+len(q))\n\tcopy(r, p[:pos])\n\tcopy(r[pos:], q)\n\tcopy(r[pos+len(q):], p[pos:])\n\treturn r\n", silent=True)
 
+# ---------------------------------------------------------------- siblings / extra structural rules
+mut("c02-sibling-ambiguous-shift", "C02", "location.go", "left, right := Ambiguous{start, i}, Ambiguous{i + n, end + n}", "left, right := Ambiguous{start, i}, Ambiguous{i + 1, end + n}", ["SIBLING|gts.Ranged.Shift~Ambiguous.Shift"])
+mut("c02-sibling-ranged-shift-boundary", "C02", "location.go", "\tif i <= start {\n\t\tstart += n\n\t}\n\tif i < end {\n\t\tend += n\n\t}\n\treturn Ranged{start, end, partial}", "\tif i < start {\n\t\tstart += n\n\t}\n\tif i < end {\n\t\tend += n\n\t}\n\treturn Ranged{start, end, partial}", ["SIBLING|gts.Ranged.Shift~Ambiguous.Shift"])
+mut("c02-sibling-embed-shift", "C02", "sequence.go", "f.Loc = f.Loc.Expand(index, Len(guest))", "f.Loc = f.Loc.Shift(index, Len(guest))", ["SIBLING|gts.Insert~Embed"])
+mut("c02-len-origin", "C02", "seqio/origin.go", "\tif len(o.Buffer) == 0 {\n\t\treturn 0\n\t}\n\tif o.Parsed {", "\tif len(o.Buffer) <= 12 {\n\t\treturn 0\n\t}\n\tif o.Parsed {", ["LEN|seqio.Origin.Len"])
+mut("c03-clamp-between", "C03", "location.go", "\tp := int(between)\n\tif i < p {\n\t\tp = Max(i, p+n)\n\t}", "\tp := int(between)\n\tif i < p {\n\t\tp += n\n\t}", ["CLAMP|gts.Between.Expand"])
+mut("c03-sibling-ambiguous-expand", "C03", "location.go",
+    "\tstart, end := ambiguous.Start, ambiguous.End\n\tif (0 <= n && i <= start) || (n < 0 && i < start) {", "\tstart, end := ambiguous.Start, ambiguous.End\n\tif (0 <= n && i <= start) || (n < 0 && i <= start) {", ["SIBLING|gts.Ranged.Expand~Ambiguous.Expand"])
+mut("c03-window-reference", "C03", "seqio/genbank.go", "if gts.LocationOverlap(loc, start, end) {", "if loc.Start <= end && start <= loc.End {", ["WINDOW|seqio.GenBankFields.Slice"])
+mut("c03-window-slice-bounds", "C03", "sequence.go", "ff := seq.Features().Filter(Overlap(start, end))", "ff := seq.Features().Filter(Overlap(start, end+1))", ["WINDOW|gts.Slice|features"])
+mut("c04-sibling-normalize-partial", "C04", "location.go",
+    "\tleft, right := Range(start, length), Range(0, end)\n\tif ranged.Partial.Partial5 {\n\t\tleft.Partial = Partial5\n\t}\n\tif ranged.Partial.Partial3 {\n\t\tright.Partial = Partial3\n\t}",
+    "\tleft, right := Range(start, length), Range(0, end)\n\tif ranged.Partial != Complete {\n\t\tleft.Partial = Partial5\n\t\tright.Partial = Partial3\n\t}", ["SIBLING|gts.Ranged.Shift~Ranged.Normalize"])
+mut("c04-mod-normalise", "C04", "sequence.go", "\tfor Len(seq) > 0 && n < 0 {\n\t\tn += Len(seq)\n\t}\n\tn %= Len(seq)\n", "\tn = (n + Len(seq)) % Len(seq)\n", ["MOD-NORMALISE|gts.Rotate"])
+mut("c04-silent-mod-closed-form", "C04", "sequence.go", "\tfor Len(seq) > 0 && n < 0 {\n\t\tn += Len(seq)\n\t}\n\tn %= Len(seq)\n", "\tn = ((n % Len(seq)) + Len(seq)) % Len(seq)\n", silent=True)
+mut("c05-reverse-map", "C05", "region.go",
+    "\tret := make(Regions, len(rr))\n\tfor i, r := range rr {\n\t\t// Flip the order of regions.\n\t\tret[len(rr)-i-1] = r.Complement()\n\t}\n\treturn ret",
+    "\tret := make(Regions, len(rr))\n\tcopy(ret, rr)\n\tfor l, r := 0, len(ret)-1; l < r; l, r = l+1, r-1 {\n\t\tret[l], ret[r] = ret[r].Complement(), ret[l].Complement()\n\t}\n\treturn ret", ["REVERSE-MAP|gts.Regions.Complement"])
+mut("c05-mirror", "C05", "region.go", "ret[len(rr)-i-1] = r.Complement()", "ret[i] = r.Complement()", ["FILL|gts.Regions.Complement"])
+mut("c05-lookup-index0", "C05", "nucleotide.go",
+    "\t\tswitch j := bytes.IndexByte(old, c); j {\n\t\tcase -1:\n\t\t\tq[i] = c\n\t\tdefault:\n\t\t\tq[i] = new[j]\n\t\t}",
+    "\t\tif j := bytes.IndexByte(old, c); j > 0 {\n\t\t\tq[i] = new[j]\n\t\t} else {\n\t\t\tq[i] = c\n\t\t}", ["LOOKUP|gts.replaceBytes"])
+mut("c05-silent-lookup-if", "C05", "nucleotide.go",
+    "\t\tswitch j := bytes.IndexByte(old, c); j {\n\t\tcase -1:\n\t\t\tq[i] = c\n\t\tdefault:\n\t\t\tq[i] = new[j]\n\t\t}",
+    "\t\tif j := bytes.IndexByte(old, c); j >= 0 {\n\t\t\tq[i] = new[j]\n\t\t} else {\n\t\t\tq[i] = c\n\t\t}", silent=True)
+mut("c15-mirror", "C15", "region.go", "ret[len(rr)-i-1] = r.Complement()", "ret[i] = r.Complement()", ["FILL|gts.Regions.Complement"])
+mut("c19-regexp-pred", "C19", "feature.go", "\t\t\tfor _, v := range vv {\n\t\t\t\tif re.MatchString(v) {", "\t\t\tfor _, v := range vv {\n\t\t\t\tif re.FindString(v) != \"\" {", ["REGEXP-PRED|gts.Qualifier"])
+mut("c19-source-prefix", "C19", "feature.go", "\tfor i < len(ff) && ff[i].Key == \"source\" {\n\t\ti++\n\t}", "\tif len(ff) > 0 && ff[0].Key == \"source\" {\n\t\ti = 1\n\t}", ["SOURCE-PREFIX|gts.FeatureSlice.Insert"])
+
 if __name__ == "__main__":
     here = os.path.dirname(os.path.abspath(__file__))
     ids = [m["id"] for m in M]
